@@ -21,7 +21,7 @@ ASSUMPTIONS = [
     "the parallel hashing path is reached by construction (two files larger than the threshold in one directory); its use is inferred from the inputs, not from an internal hook",
 ]
 MONITORS = "oid / bytes equality across permutations and configurations; independent canonical encoder; collision map"
-REQUIRED_COUNTERS = ["digests_after_replacing_an_entry", "digests_asked_to_keep_metadata", "other_hash_name_listings_through_the_store", "legacy_algorithm_builds_with_large_text_files", "digested_object_reread_after_other_digests", "late_materialisations", "flaky_read_builds", "inode_only_swaps", "get_obj_after_add_histories", "state_warmed_under_other_algorithm", "permutations_checked", "sets_exhaustively_permuted", "disk_builds", "parallel_path_builds", "shuffled_walk_builds",
+REQUIRED_COUNTERS = ["cwd_relative_builds", "trees_with_dot_leading_directory_names", "digests_after_replacing_an_entry", "digests_asked_to_keep_metadata", "other_hash_name_listings_through_the_store", "legacy_algorithm_builds_with_large_text_files", "digested_object_reread_after_other_digests", "late_materialisations", "flaky_read_builds", "inode_only_swaps", "get_obj_after_add_histories", "state_warmed_under_other_algorithm", "permutations_checked", "sets_exhaustively_permuted", "disk_builds", "parallel_path_builds", "shuffled_walk_builds",
                      "warm_state_builds", "prefix_objects_checked", "roundtrip_checks", "get_hashes_threshold_checks"]
 
 
@@ -270,6 +270,11 @@ def run_shard(ctx):
             files, _e = gen.tree(rng, depth=rng.randrange(0, 3), fanout=3, odd=0.3, dup=0.4, min_files=2)
             files[("crlf.txt",)] = b"line one\r\nline two\r\n" * rng.randrange(1, 40)
             files[("twin-a",)], files[("twin-b",)] = b"AAAA twin", b"BBBB twin"
+            if rng.random() < 0.6:
+                # dot-leading names at the root and below (".cfg/a" and "cfg/a" are different paths)
+                files[(rng.choice([".cfg", "..cfg", ".a.b"]), "a")] = b"dotted " + rng.randbytes(6)
+                files[("plain-sub", ".hidden", ".b")] = b"dotted too"
+                res.count("trees_with_dot_leading_directory_names")
             if big:
                 base = rng.choice(sorted({k[:-1] for k in files}))
                 for i in range(rng.choice([2, 3])):
@@ -309,6 +314,7 @@ def run_shard(ctx):
                         res.violation("staging-config-dependent/legacy-algorithm-large-files", f"md5-dos2unix build (jobs={jobs_}) gives {lobj.hash_info.value}, per-file reference {ref_legacy}",
                                       case=case, detail={"jobs": jobs_})
             runs.append(("trailing-separator", odb_nostate, env.localfs(), rng.choice([1, 4])))
+            runs.append(("cwd-relative", odb_nostate, env.localfs(), rng.choice([1, 4])))
             if big:
                 ffs = FlakyReadFS()
                 ffs.rng = rng
@@ -338,7 +344,16 @@ def run_shard(ctx):
                     if label == "trailing-separator":
                         # a legal non-canonical spelling of the same directory
                         sp_ = rng.choice([p + os.sep, p + os.sep, d + "//data", d + "/./data", p + "/../data"])
-                    _st, meta, obj = build(o, sp_, fs, "md5", checksum_jobs=jobs)
+                    if label == "cwd-relative":
+                        # the directory named relative to the working directory: "." from inside it, or its name from its parent
+                        res.count("cwd_relative_builds")
+                        sp_ = rng.choice([".", ".", "data", "./data"])
+                        os.chdir(p if sp_ == "." else d)
+                    try:
+                        _st, meta, obj = build(o, sp_, fs, "md5", checksum_jobs=jobs)
+                    finally:
+                        if label == "cwd-relative":
+                            os.chdir("/")
                 if label == "jobs=1":
                     first_staging = _st
                 objs.append(obj)
